@@ -606,6 +606,17 @@ def run(ctx):
     run_decimals(ctx, dc)
     run_durations(ctx, dc, iso)
     run_datetime(ctx, iso)
+    T, D, C = dc.TimestampConverter, dc.DecimalConverter, dc.DurationConverter
+    ctx.samples[:] = [
+        {'TimestampConverter': "to_py('1001')", 'float.hex': T.to_py('1001').hex(), 'to_xml': T.to_xml(T.to_py('1001'))},
+        {'TimestampConverter': f"to_py('{TS_LIMIT - 1}')", 'float.hex': T.to_py(str(TS_LIMIT - 1)).hex(), 'to_xml': T.to_xml(T.to_py(str(TS_LIMIT - 1)))},
+        {'DecimalConverter': "to_xml(Decimal('-0.123456789012345678'))", 'xml': D.to_xml(Decimal('-0.123456789012345678')),
+         'to_xml(Decimal("1E-7"))': D.to_xml(Decimal('1E-7')), 'to_xml(Decimal("123456789012345678E+3"))': D.to_xml(Decimal('123456789012345678E+3'))},
+        {'lexical': {s: call(dc.IntegerConverter.to_py, s)[0] + '/' + call(D.to_py, s)[0] + '/' + str(call(dc.BooleanConverter.to_py, s)[1])
+                     for s in ('1_000', 'NaN', '1E5', ' 12 ', 'TRUE', '+5', '.5')}, 'columns': 'integer/decimal/boolean'},
+        {'DurationConverter': 'to_xml(3723.000001)', 'xml': C.to_xml(3723.000001), 'to_py': C.to_py(C.to_xml(3723.000001)).hex()},
+        {'parse_date_time': '2020-02-03T04:05:06.125+01:30', 'str': str(iso.parse_date_time('2020-02-03T04:05:06.125+01:30'))},
+    ]
     ctx.notes['explanation'] = ('dense window 0..2e4 ms line by line, 0..2e5 by checksum (thorough: 0..2e7), random n < 2^53/1000, random floats <= 2^41 s; '
                                 'decimals: every sign x digit count 1..22 x exponent -25..25 class; sloppy lexical forms for every converter; '
                                 'durations from floats incl. ties of the microsecond rounding and from strings')
